@@ -879,7 +879,11 @@ func (m *Model) checkEntry(name string, got otter.Entry[int, int], k int, cur *e
 		return
 	}
 	if got.ExpiresAtNano != cur.exp {
-		m.fail("deadline", "%s: ExpiresAtNano=%d, the model computes %d (now %d)", name, got.ExpiresAtNano, cur.exp, now)
+		class := "deadline"
+		if got.ExpiresAtNano < cur.exp {
+			class = "tooearly" // the entry will disappear before its deadline: also a C07 matter
+		}
+		m.fail(class, "%s: ExpiresAtNano=%d, the model computes %d (now %d)", name, got.ExpiresAtNano, cur.exp, now)
 		return
 	}
 	if got.RefreshableAtNano != cur.ref {
